@@ -18,7 +18,7 @@ def run_one(name, patch, targets, runs, jobs):
         for t in targets:
             env = dict(os.environ, VERIF_REPO=wt)
             t0 = time.time()
-            p = subprocess.run([os.path.join(VERIF, "check"), t, "--runs", str(runs), "--jobs", str(jobs)],
+            p = subprocess.run([os.path.join(VERIF, "check"), t, "--runs", str(runs), "--jobs", str(jobs), "--cap", os.environ.get("MUT_CAP", "100")],
                                env=env, capture_output=True, text=True, cwd=VERIF)
             sigs = re.findall(r"violation signature: (\S+) \((\d+) runs\)", p.stdout)
             res["results"][t] = dict(rc=p.returncode, wall=round(time.time() - t0, 1), signatures=sigs[:6],
